@@ -244,7 +244,7 @@ func R19(p *core.Prog) *core.Result {
 		t, err := foldEscapeInit(f)
 		if err != nil {
 			okFold = false
-			r.Undecided(".ESCAPE-TABLE", "json."+f.Name(), "json."+f.Name()+" is not a closed constant computation the evaluator understands: "+err.Error())
+			r.Undecided(".ESCAPE-TABLE", "json."+core.FuncName(f), "json."+core.FuncName(f)+" is not a closed constant computation the evaluator understands: "+err.Error())
 			continue
 		}
 		for k, v := range t {
@@ -314,7 +314,7 @@ func R19(p *core.Prog) *core.Result {
 					continue
 				}
 				sc := c.Common().StaticCallee()
-				if sc == nil || funcPkgPath(sc) != "strconv" || (sc.Name() != "AppendFloat" && sc.Name() != "FormatFloat") {
+				if sc == nil || funcPkgPath(sc) != "strconv" || (core.FuncName(sc) != "AppendFloat" && core.FuncName(sc) != "FormatFloat") {
 					continue
 				}
 				fmtCalls++
@@ -322,7 +322,7 @@ func R19(p *core.Prog) *core.Result {
 				pos := p.Pos(c.Pos())
 				args := c.Common().Args
 				off := 0
-				if sc.Name() == "AppendFloat" {
+				if core.FuncName(sc) == "AppendFloat" {
 					off = 1
 				}
 				fval, prec, bits := args[off], args[off+2], args[off+3]
@@ -353,13 +353,13 @@ func R19(p *core.Prog) *core.Result {
 				if guards["IsInf"] && guards["IsNaN"] {
 					r.Ok(".FLOAT-GUARD", pos, fkey+": formatter is behind the false edges of IsInf and IsNaN")
 				} else {
-					r.Fail(".FLOAT-GUARD", fkey+"|"+sc.Name(), pos, fkey+": a float reaches strconv."+sc.Name()+" without having been tested with both math.IsInf and math.IsNaN: NaN / Inf are written as invalid JSON text", "")
+					r.Fail(".FLOAT-GUARD", fkey+"|"+core.FuncName(sc), pos, fkey+": a float reaches strconv."+core.FuncName(sc)+" without having been tested with both math.IsInf and math.IsNaN: NaN / Inf are written as invalid JSON text", "")
 				}
 				// (c) precision
 				if pv, ok := constIntVal(prec); ok && pv == -1 {
 					r.Ok(".FLOAT-FORMAT", pos, fkey+": precision -1 (shortest representation that round-trips)")
 				} else {
-					r.Fail(".FLOAT-FORMAT", fkey+"|precision", pos, fkey+": strconv."+sc.Name()+" is not called with precision -1: the decimal text no longer round-trips to the same float", "")
+					r.Fail(".FLOAT-FORMAT", fkey+"|precision", pos, fkey+": strconv."+core.FuncName(sc)+" is not called with precision -1: the decimal text no longer round-trips to the same float", "")
 				}
 				// bit size: constant or parameter fed by callers
 				checkBits := func(v ssa.Value, fv ssa.Value, where string, wpos string) {
@@ -499,7 +499,7 @@ func (k *sepClient) Instr(s sepState, in ssa.Instruction) (sepState, bool, []sep
 	if sc == nil || !k.c.p.InModule(sc) {
 		return s, true, nil
 	}
-	switch sc.Name() {
+	switch core.FuncName(sc) {
 	case "tryElemNext", "onFieldNext":
 		s.separated = true
 		return s, true, nil
